@@ -194,7 +194,7 @@ def run(ctx: Context) -> None:
             return '|'.join(sorted(kinds)) or '?'
 
         for kind in ('node', 'face', 'edge'):
-            key = f"topology.{kind}_dimension"
+            key = f"self.topology.{kind}_dimension"
             v = pairs.get(key)
             ok = v is not None and table_kind(v) == kind and isinstance(v, ast.UnaryOp) and isinstance(v.op, ast.Invert) \
                 and isinstance(v.operand, ast.Call) and callee(ctx, ac, v.operand) == 'numpy.ma.getmask'
@@ -211,7 +211,7 @@ def run(ctx: Context) -> None:
         ctx.need('R08.4', len(loops) == 1, "apply_clip_mask loops once over the variables", ac)
         lp = loops[0]
         it_txt = norm_text(lp.iter)
-        ok = it_txt in ('{**dataset.data_vars, **dataset.coords}.items()', 'dataset.variables.items()')
+        ok = it_txt in ('{**self.dataset.data_vars, **self.dataset.coords}.items()', 'self.dataset.variables.items()')
         ctx.check('R08.4', ok, "every data variable and every coordinate variable is routed", ac, lp, construct=f"for ... in {it_txt}")
         # routing by what is known where each thing happens (if/elif/else, early `continue`, nested ifs: all the same)
         TOPO_T = 'name in topology_variable_names'
@@ -306,11 +306,11 @@ def run(ctx: Context) -> None:
                 txt = norm_text(co)
                 ok = isinstance(co, ast.DictComp) and len(co.generators) == 1 and len(co.generators[0].ifs) == 1 \
                     and norm_text(co.generators[0].ifs[0]).replace(' ', '') == 'set(coord.dims).isdisjoint(mesh_dimensions)'.replace(' ', '') \
-                    and norm_text(co.generators[0].iter) == 'dataset.coords.items()'
+                    and norm_text(co.generators[0].iter) == 'self.dataset.coords.items()'
                 ctx.check('R08.5', ok, "meshes: only coordinates without a mesh dimension are forwarded unchanged (the others are row-selected)", ac, c,
                           construct=f"coords={txt[:110]}")
         fin = [c for c in calls_in(ac) if callee(ctx, ac, c) == f"{UTILS}.dataset_like"]
-        ok = len(fin) == 1 and norm_text(fin[0].args[0]) == 'dataset' and all(aflow.resolve(r.value) is fin[0] for r in ac.returns())
+        ok = len(fin) == 1 and norm_text(fin[0].args[0]) == 'self.dataset' and all(aflow.resolve(r.value) is fin[0] for r in ac.returns())
         ctx.check('R08.5', ok, "the result is re-assembled from the written (selected) files only, with the input's layout", ac, fin[0] if fin else ac.node)
 
         from .common import purity_obligations
